@@ -33,6 +33,7 @@ type vfCfg struct {
 	ShouldUpdate func(cur, prev vfVal) bool
 	IgnoreInternalCost bool
 	NoCallbacks  bool
+	FreeCost     bool // items written with cost 0 really cost nothing (the Cost callback returns 0)
 }
 
 func vfNewCache(cfg vfCfg) (*Cache[uint64, vfVal], *vfMon) {
@@ -53,6 +54,13 @@ func vfNewCache(cfg vfCfg) (*Cache[uint64, vfVal], *vfMon) {
 		NumCounters: cfg.NumCounters, MaxCost: cfg.MaxCost, BufferItems: cfg.BufferItems, Metrics: cfg.Metrics,
 		Cost: cfg.Cost, ShouldUpdate: cfg.ShouldUpdate, IgnoreInternalCost: cfg.IgnoreInternalCost,
 		KeyToHash: func(k uint64) (uint64, uint64) { vfJitter(); return mon.hash[k], mon.conf[k] },
+	}
+	if c.Cost == nil {
+		// only consulted for items written with cost 0; a seam inside the applier for stress replay
+		c.Cost = func(v vfVal) int64 { vfJitter(); return 1 }
+		if cfg.FreeCost {
+			c.Cost = func(v vfVal) int64 { vfJitter(); return 0 }
+		}
 	}
 	if c.ShouldUpdate == nil {
 		// a seam inside the store's update path (no effect on the symbolic run; perturbs the
